@@ -446,6 +446,10 @@ func origins(v ssa.Value, expand bool) (vals []ssa.Value, unknown bool) {
 		default:
 			// the producing expression was extracted into a function that is new since the
 			// anchor snapshot: the origins are those of what the helper returns
+			if _, isTuple := v.Type().(*types.Tuple); isTuple {
+				vals = append(vals, v)
+				return
+			}
 			if call, idx, ok := CallResult(v); ok && expand && IsNewFunc != nil && len(seen) < 400 {
 				if h := CalleeFunc(&call.Call); h != nil && h.Blocks != nil && IsNewFunc(h) && idx < h.Signature.Results().Len() {
 					n := 0
